@@ -16,7 +16,7 @@ import hashlib
 import ipaddress
 import re
 
-from kit.h import P, run, mark, known, concretize
+from kit.h import P, run, mark, known, concretize, decode_point
 
 import urllib3.util.ssl_match_hostname as M
 from urllib3.util.ssl_match_hostname import match_hostname, CertificateError
@@ -96,10 +96,6 @@ def ref_match(san, cn, host, cn_enabled):
 
 def _call(fn, cert, host, cn_enabled):
     # every argument has been realised (solver-enumerated): the matcher runs outside the tracer on concrete values
-    from kit.net import _untraced
-    from crosshair.core import deep_realize
-    cn_enabled = deep_realize(cn_enabled) if not isinstance(cn_enabled, bool) else cn_enabled
-    fn = _untraced(fn)
     try:
         fn(cert, host, cn_enabled)
         return "accept", None
@@ -110,8 +106,6 @@ def _call(fn, cert, host, cn_enabled):
 
 
 def _dns_body(nl, h0, h1, h2, trailing_dot, entry, cn_enabled, cn_i, order):
-    nl, h0, h1, h2, entry, cn_i = [concretize(v) for v in (nl, h0, h1, h2, entry, cn_i)]
-    trailing_dot, cn_enabled, order = [concretize(v) for v in (trailing_dot, cn_enabled, order)]
     labels = [HOST_LABELS[h0], HOST_LABELS[h1], HOST_LABELS[h2]][:nl]
     host = ".".join(labels) + ("." if trailing_dot else "")
     sans = P.sans
@@ -147,15 +141,30 @@ def _dns_body(nl, h0, h1, h2, trailing_dot, entry, cn_enabled, cn_i, order):
     return True
 
 
-def c08_dns(nl: int, h0: int, h1: int, h2: int, trailing_dot: bool, entry: int, cn_enabled: bool, cn_i: int, order: bool) -> bool:
+def dns_dims(part):
+    hl = part["hl"]
+    hosts = [(1, a, hl[0], hl[0]) for a in hl] + [(2, a, b, hl[0]) for a in hl for b in hl]
+    if part["maxlabels"] >= 3:
+        hosts += [(3, a, b, c) for a in hl for b in hl for c in hl]
+    return [hosts, [False, True] if part["dots"] else [False], [False, True], part["cns"], [False, True] if part["multi"] else [False]]
+
+
+def _dns_point(idx):
+    (nl, h0, h1, h2), td, cne, cn_i, order = decode_point(idx, dns_dims(P))
+    return N_untraced(_dns_body)(nl, h0, h1, h2, td, 0, cne, cn_i, order)
+
+
+def N_untraced(fn):
+    from kit.net import _untraced
+    return _untraced(fn)
+
+
+def c08_dns(idx: int) -> bool:
     """
-    pre: 1 <= nl <= P.maxlabels and h0 in P.hl and h1 in P.hl and h2 in P.hl
-    pre: P.multi or not order
-    pre: (nl >= 2 or h1 == P.hl[0]) and (nl >= 3 or h2 == P.hl[0]) and entry == 0 and cn_i in P.cns
-    pre: (not trailing_dot) or P.dots
+    pre: 0 <= idx < P.n
     post: _
     """
-    return run(_dns_body, nl, h0, h1, h2, trailing_dot, entry, cn_enabled, cn_i, order)
+    return run(_dns_point, idx)
 
 
 # ---- IP ----------------------------------------------------------------------------------------------------------------
@@ -166,8 +175,6 @@ IP_SANS = ["1.2.3.4", "1.2.3.5", "::1", "0:0:0:0:0:0:0:1", "::A", "fe80::1", "1.
 
 
 def _ip_body(hi, si, with_dns, use_conn, cn_enabled):
-    hi, si = concretize(hi), concretize(si)
-    with_dns, use_conn, cn_enabled = [concretize(v) for v in (with_dns, use_conn, cn_enabled)]
     host = IP_HOSTS[hi]
     sanv = IP_SANS[si]
     san = [("IP Address", sanv)]
@@ -198,12 +205,20 @@ def _ip_body(hi, si, with_dns, use_conn, cn_enabled):
     return True
 
 
-def c08_ip(hi: int, si: int, with_dns: bool, use_conn: bool, cn_enabled: bool) -> bool:
+def ip_dims(part):
+    return [list(range(len(IP_HOSTS))), list(range(len(IP_SANS))), [False, True], [False, True], [False, True]]
+
+
+def _ip_point(idx):
+    return N_untraced(_ip_body)(*decode_point(idx, ip_dims(P)))
+
+
+def c08_ip(idx: int) -> bool:
     """
-    pre: 0 <= hi < len(IP_HOSTS) and 0 <= si < len(IP_SANS)
+    pre: 0 <= idx < P.n
     post: _
     """
-    return run(_ip_body, hi, si, with_dns, use_conn, cn_enabled)
+    return run(_ip_point, idx)
 
 
 # ---- fingerprints --------------------------------------------------------------------------------------------------------
@@ -217,7 +232,6 @@ def digests(cert):
 
 
 def _pin_body(ci, di, op, i, c, n):
-    ci, di, op, i, c, n = [concretize(v) for v in (ci, di, op, i, c, n)]
     cert = CERTS[ci]
     true = digests(cert)[di]
     L = len(true)
@@ -244,9 +258,8 @@ def _pin_body(ci, di, op, i, c, n):
         pin = (other + other)[:L]
     norm = pin.replace(":", "").lower()
     want = len(norm) in (32, 40, 64) and norm == digests(cert)[{32: 0, 40: 1, 64: 2}[len(norm)]]
-    from kit.net import _untraced
     try:
-        _untraced(assert_fingerprint)(cert, pin)
+        assert_fingerprint(cert, pin)
         got = True
         err = None
     except SSLError as e:
@@ -261,13 +274,30 @@ def _pin_body(ci, di, op, i, c, n):
     return True
 
 
-def c08_pin(ci: int, di: int, op: int, i: int, c: int, n: int) -> bool:
+def pin_dims(part):
+    edits = []
+    for op in part["ops"]:
+        for i in (part["iis"] if op in (1, 2, 3) else [0]):
+            for c in (part["cs"] if op in (3, 5) else [0]):
+                for n in (part["ns"] if op in (4, 5) else [0]):
+                    edits.append((op, i, c, n))
+    return [list(range(len(CERTS))), [0, 1, 2], edits]
+
+
+def _pin_point(idx):
+    ci, di, (op, i, c, n) = decode_point(idx, pin_dims(P))
+    return N_untraced(_pin_body)(ci, di, op, i, c, n)
+
+
+def c08_pin(idx: int) -> bool:
     """
-    pre: 0 <= ci < len(CERTS) and 0 <= di <= 2 and op in P.ops and i in P.iis and c in P.cs and n in P.ns
-    pre: (op in (1, 2, 3) or i == 0) and (op in (3, 5) or c == 0) and (op in (4, 5) or n == 0)
+    pre: 0 <= idx < P.n
     post: _
     """
-    return run(_pin_body, ci, di, op, i, c, n)
+    return run(_pin_point, idx)
+
+
+DIMS = {"c08_dns": dns_dims, "c08_ip": ip_dims, "c08_pin": pin_dims}
 
 
 # ---- E2 lemmas ------------------------------------------------------------------------------------------------------------
@@ -378,29 +408,28 @@ def LEMMAS(tier):
 
 def JOBS(tier):
     quick = tier == "quick"
-    t = 150 if quick else 900
+    t = 170 if quick else 900
     jobs = []
     san_lists = [[("DNS", d)] for d in DN_POOL]
     san_lists += [[("DNS", "x.y"), ("DNS", "*.b")], [("DNS", "*.b"), ("DNS", "a.*.b")], [("IP Address", "1.2.3.4"), ("DNS", "*.b")],
                   [("IP Address", "1.2.3.4")], [], [("DNS", "a.b"), ("DNS", "A.B"), ("DNS", "*.a.b")], [("email", "a.b")]]
     for sl in san_lists:
-        jobs.append({"func": "c08_dns", "timeout": t, "path_timeout": 60,
-                     "part": {"sans": [list(x) for x in sl], "maxlabels": 2 if quick else 3, "dots": not quick,
-                              "multi": len(sl) > 1, "hl": [0, 1, 3, 4, 5, 6, 8] if quick else list(range(len(HOST_LABELS))),
+        jobs.append({"func": "c08_dns", "timeout": t, "path_timeout": 60, "samples": 1,
+                     "part": {"sans": [list(x) for x in sl], "maxlabels": 2 if quick else 3, "dots": True,
+                              "multi": len(sl) > 1, "hl": list(range(len(HOST_LABELS))),
                               "cns": [-1, 0, 1] if (not sl or sl[0][0] != "DNS") else [-1, 1]}})
     jobs.append({"func": "c08_ip", "timeout": t, "part": {}})
-    for op in range(9):
-        jobs.append({"func": "c08_pin", "timeout": t, "part": {
-            "ops": [op], "iis": [0, 1, 31, 32, 39, 40, 63] if quick else list(range(64)),
-            "cs": [0, 9, 15] if quick else list(range(16)), "ns": [0, 1, 31, 32, 33, 40, 63] if quick else list(range(64))}})
+    jobs.append({"func": "c08_pin", "timeout": t, "samples": 1, "part": {
+        "ops": list(range(9)), "iis": list(range(0, 64, 3)) + [63] if quick else list(range(64)),
+        "cs": [0, 9, 15] if quick else list(range(16)), "ns": [0, 1, 31, 32, 33, 39, 40, 41, 63] if quick else list(range(64))}})
     return jobs
 
 
 EVIDENCE = {
     "bounds": {"quick": "E2: hostnames of any length for the 15 wildcard patterns of the pool x {host starts with xn-- or not}; E1: 27 SAN "
                         "lists (every pattern of the pool alone, pairs, IP+DNS, none, 3 entries, foreign kinds) x hostnames of 1-2 labels "
-                        "from a 7-label pool (a, b, '', A, xn--a, XN--a, aab) x entry order x commonName on/off and three commonName values; 15 IP host spellings x 9 "
-                        "IP SAN spellings x DNS decoys x both entry points; pins: 3 certificates x 3 digests x 9 edit operations at 7 positions / 3 hex digits / 7 lengths (all of them in thorough)",
+                        "from the 11-label pool, with and without trailing dot x entry order x commonName on/off and three commonName values; 15 IP host spellings x 9 "
+                        "IP SAN spellings x DNS decoys x both entry points; pins: 3 certificates x 3 digests x 9 edit operations at every third position / 3 hex digits / 9 lengths (all of them in thorough); every point one solver model of a single index variable",
                "thorough": "hostnames of 1-3 labels, trailing dots"},
     "outside": ["labels outside the pool in E1 (E2 lemmas quantify over all hostnames)", "non-ASCII hostnames (EITHER)",
                 "OpenSSL's own matching (C07)"],
